@@ -456,6 +456,11 @@ impl Exp {
     }
 }
 
+/// Whether the expression is a literal that is printed with a leading minus.
+fn is_negative_number(exp: &Exp) -> bool {
+    matches!(exp, Exp::Number(value) if value.is_sign_negative())
+}
+
 /// Whether a constant number counts as true, everything except zero does.
 fn num_truthy(value: f64) -> bool {
     value != 0.0
@@ -534,7 +539,7 @@ impl fmt::Display for Exp {
                 .collect::<Vec<_>>()
                 .join(" or "),
             Exp::Not(exp) => {
-                if exp.is_leaf() {
+                if exp.is_leaf() && !is_negative_number(exp) {
                     format!("not {}", exp)
                 } else {
                     format!("not ({})", exp)
@@ -576,7 +581,9 @@ impl fmt::Display for Exp {
                 format!("{} {} {}", string_lhs, operator, string_rhs)
             }
             Exp::UnOp(op, exp) => {
-                if exp.is_leaf() {
+                // a negative literal already starts with a prefix operator and
+                // the grammar admits a single one per operand
+                if exp.is_leaf() && !is_negative_number(exp) {
                     format!("{}{}", op, exp)
                 } else {
                     format!("{}({})", op, exp)
